@@ -687,7 +687,7 @@ pub fn run(tier: Tier, seed: u64, replay: Option<&std::path::Path>) -> i32 {
         tier,
         seed,
         level: "exploration",
-        rule: "pure cases: every TTL value through to_query/from_query, serde JSON and parse_ttl against the documented spellings; strings one edit away from the TTL grammar against a harness-owned grammar; every ReadOptions value through to_query_string -> from_query field by field; option strings with one malformed value must be rejected; Frame values (any topic, ids, sha1/256/512 and multi-hash integrity strings, meta with floats by bit pattern, huge integers, escapes, nesting up to 130) value->JSON->value, JSON decoded field by field, and hand-built import JSON -> value. End-to-end cases: histories of appends (Store API and xs-meta header) and imports (POST /import) with the same meta domain, then get / reads / reopen against the reference model. Non-trivial = TTL with N > 2^32 or K > 2; options with >= 3 fields set; frame with meta depth >= 3 or a non-integer number; end-to-end case with an import or a reopen. Distinct by value hash. Thorough tier additionally: libFuzzer target `wire` (bytes tried as TTL spelling, query string and frame JSON with the same oracles inside the target), 4 jobs x 120 s from seed inputs / from nothing with a dictionary of the option alphabet.",
+        rule: "pure cases: every TTL value through to_query/from_query, serde JSON and parse_ttl against the documented spellings; strings one edit away from the TTL grammar against a harness-owned grammar; every ReadOptions value through to_query_string -> from_query field by field; option strings with one malformed value must be rejected; hand-spelled option strings (bare flags, yes/no/true/false/1/0, heartbeat 0, extra parameters, either order) must parse to what their spelling means; Frame values (any topic, ids, sha1/256/512 and multi-hash integrity strings, meta with floats by bit pattern, huge integers, escapes, nesting up to 130) value->JSON->value, JSON decoded field by field, and hand-built import JSON -> value. End-to-end cases: histories of appends (Store API and xs-meta header) and imports (POST /import) with the same meta domain, then get / reads / reopen against the reference model. Non-trivial = TTL with N > 2^32 or K > 2; options with >= 3 fields set; frame with meta depth >= 3 or a non-integer number; end-to-end case with an import or a reopen. Distinct by value hash. Thorough tier additionally: libFuzzer target `wire` (bytes tried as TTL spelling, query string and frame JSON with the same oracles inside the target), 4 jobs x 120 s from seed inputs / from nothing with a dictionary of the option alphabet.",
         assumptions: vec![
             "whether a meta nested deeper than 100 levels is accepted is left to xs; accepted ones must read back".into(),
             "TTL strings containing '+' are not compared (Rust's integer parser accepts a leading '+', the docs do not say)".into(),
